@@ -267,7 +267,8 @@ class AbstractDimension:
         return float(self) == other
 
     def __hash__(self):
-        return hash((self._value, self._defined_units))
+        # consistent with __eq__, which compares the magnitude only (display units may change)
+        return hash(float(self._value))
 
     def __lt__(self, other):
         return float(self) < other
